@@ -24,7 +24,7 @@ DTS = [0.3j, -0.7j, 0.2, 0.1 + 0.2j]
 def _cases(N):
     for n in range(1, N + 1):
         for kind in kc.MATRIX_KINDS_H + kc.MATRIX_KINDS_G:
-            ks = range(1, n) if kind.startswith('block_invariant') else [0]
+            ks = range(1, n) if kind.startswith('block_invariant') else (range(1, n + 1) if kind == 'nilpotent_chain' else [0])
             for k in ks:
                 for sk in kc.START_KINDS:
                     for how in kc.PRESENTATIONS:
